@@ -163,3 +163,58 @@ pub fn vp_mut_slice_as_ref<'a>(b: &'a mut [u8]) -> (r: &'a [u8])
 pub assume_specification<T, E, U, F: FnOnce(T) -> Result<U, E>> [ Result::<T, E>::and_then ] (r: Result<T, E>, op: F) -> (out: Result<U, E>)
     requires r matches Ok(t) ==> op.requires((t,)),
     ensures match r { Ok(t) => op.ensures((t,), out), Err(e) => out == Err::<U, E>(e) };
+
+// ---------------- hashing (N13 shim) ----------------
+/// ghost trace of a hasher: the abstract tokens fed into it so far
+pub uninterp spec fn hasher_fed<H>(h: &H) -> Seq<Seq<u8>>;
+/// the token `x.hash(state)` feeds: a function of `x` (for u64 / [u8; N] / Vec<u8>: of the value / contents, see trusted.rs)
+pub uninterp spec fn hash_tok<T>(x: &T) -> Seq<u8>;
+/// N13 shim for `x.hash(state)`; the body is the original call
+#[verifier::external_body]
+pub fn vp_hash<T: core::hash::Hash, H: core::hash::Hasher>(x: &T, state: &mut H)
+    ensures hasher_fed(final(state)) == hasher_fed(old(state)).push(hash_tok(x)),
+{ x.hash(state) }
+
+// ---------------- Display (N6 shim) ----------------
+/// ghost: everything written to the formatter so far
+pub uninterp spec fn fmt_out(f: &core::fmt::Formatter<'_>) -> Seq<char>;
+/// N6 shim for `write!(f, "{}", s)` with a string argument: appends exactly the string (or fails without a guarantee)
+#[verifier::external_body]
+pub fn vp_write_display(f: &mut core::fmt::Formatter<'_>, s: &String) -> (r: core::fmt::Result)
+    ensures r is Ok ==> fmt_out(final(f)) == fmt_out(old(f)) + s@,
+{ write!(f, "{}", s) }
+/// `&String` / `&str` / `&&str` as a str (argument adapter of the write! shim)
+pub trait VpAsStr {
+    spec fn vp_chars(&self) -> Seq<char>;
+    fn vp_as_str(&self) -> (r: &str)
+        ensures r@ == self.vp_chars();
+}
+impl VpAsStr for String {
+    open spec fn vp_chars(&self) -> Seq<char> { self@ }
+    fn vp_as_str(&self) -> (r: &str) { self.as_str() }
+}
+impl VpAsStr for &str {
+    open spec fn vp_chars(&self) -> Seq<char> { (*self)@ }
+    fn vp_as_str(&self) -> (r: &str) { *self }
+}
+pub open spec fn concat_strs(parts: Seq<&str>) -> Seq<char>
+    decreases parts.len()
+{
+    if parts.len() == 0 { Seq::empty() } else { concat_strs(parts.drop_last()) + parts.last()@ }
+}
+/// N6 shim for `write!(f, "lit{}lit{}", a, b)` with string arguments: appends the concatenation of the parts
+#[verifier::external_body]
+pub fn vp_write_parts(f: &mut core::fmt::Formatter<'_>, parts: &[&str]) -> (r: core::fmt::Result)
+    ensures r is Ok ==> fmt_out(final(f)) == fmt_out(old(f)) + concat_strs(parts@),
+{
+    for p in parts { f.write_str(p)?; }
+    Ok(())
+}
+/// str slicing `&s[a..b]` / `&s[a..]` (panics unless both ends are char boundaries); meaning for Range / RangeFrom on
+/// ASCII strings is given by axiom_string_index_range / axiom_string_index_from (trusted.rs)
+pub uninterp spec fn string_index_rel<I: core::slice::SliceIndex<str>>(s: &String, i: I, o: &I::Output) -> bool;
+pub assume_specification<I: core::slice::SliceIndex<str>> [ <String as core::ops::Index<I>>::index ] (s: &String, i: I) -> (o: &I::Output)
+    // the precondition is vstd's `IndexSpec::index_req` (given meaning for ASCII strings by T14 in trusted.rs)
+    ensures string_index_rel(s, i, o);
+pub assume_specification [ String::len ] (s: &String) -> (r: usize)
+    ensures is_ascii_chars(s@) ==> r == s@.len();
